@@ -28,8 +28,7 @@ impl CheckedAction {
 }
 #[derive(Debug, Clone, Copy)] pub struct TransactionParams { pub nonce: u32 }
 impl TransactionParams { pub fn nonce(&self) -> u32 { self.nonce } }
-#[derive(Debug, Clone, Copy)] pub struct VerificationKey { pub addr: [u8; ADDRESS_LENGTH] }
-impl VerificationKey { pub fn address_bytes(&self) -> &[u8; ADDRESS_LENGTH] { &self.addr } }
+// VerificationKey: shims/seq.rs (validators_shim)
 #[derive(Debug, Clone, Copy)] pub struct Group;
 #[derive(Debug, Clone, Copy)] pub struct Bytes;
 
